@@ -102,6 +102,28 @@ func c19Judge(c *c19Case) string {
 			return "pause flag does not read back"
 		}
 		return c19Others(before, obj.Annotations, PausedReconcileAnn)
+	case "default":
+		// client-side defaulting applied twice equals applying it once (bounded: a few strategy shapes)
+		for _, shape := range []string{"empty", "rolling-nopartition", "rolling-partition", "ondelete", "rolling-nil"} {
+			d := c19Obj(c)
+			switch shape {
+			case "rolling-nopartition":
+				d.Spec.UpdateStrategy = asv1.StatefulSetUpdateStrategy{Type: asv1.RollingUpdateStatefulSetStrategyType, RollingUpdate: &asv1.RollingUpdateStatefulSetStrategy{}}
+			case "rolling-partition":
+				two := int32(2)
+				d.Spec.UpdateStrategy = asv1.StatefulSetUpdateStrategy{Type: asv1.RollingUpdateStatefulSetStrategyType, RollingUpdate: &asv1.RollingUpdateStatefulSetStrategy{Partition: &two}}
+			case "ondelete":
+				d.Spec.UpdateStrategy = asv1.StatefulSetUpdateStrategy{Type: asv1.OnDeleteStatefulSetStrategyType}
+			case "rolling-nil":
+				d.Spec.UpdateStrategy = asv1.StatefulSetUpdateStrategy{Type: asv1.RollingUpdateStatefulSetStrategyType}
+			}
+			asv1.SetObjectDefaults_StatefulSet(d)
+			once := d.DeepCopy()
+			asv1.SetObjectDefaults_StatefulSet(d)
+			if !apiequality.Semantic.DeepEqual(once, d) {
+				return "defaulting applied twice differs from applying it once (update strategy shape: " + shape + ")"
+			}
+		}
 	case "convert":
 		one := int32(1)
 		b := &appsv1.StatefulSet{ObjectMeta: metav1.ObjectMeta{Name: "web", Namespace: "ns", Annotations: obj.Annotations, Labels: map[string]string{"a": "b"}},
@@ -167,7 +189,7 @@ func TestReplayC19(t *testing.T) {
 		fmt.Printf("REPRODUCED %s\n", out)
 		found++
 	}
-	for _, op := range []string{"set", "add", "pause", "unpause", "convert"} {
+	for _, op := range []string{"set", "add", "pause", "unpause", "convert", "default"} {
 		try(&c19Case{NilMap: true, NilSlots: true, Op: op})
 		try(&c19Case{NilMap: true, Slots: []int32{4}, Op: op})
 		for _, m := range maps {
@@ -178,6 +200,6 @@ func TestReplayC19(t *testing.T) {
 		}
 	}
 	if found == 0 {
-		fmt.Printf("NOT-REPRODUCED bounded search: %d runs (5 operations x nil/5 annotation maps x nil/5 slot sets) on the real helpers\n", tried)
+		fmt.Printf("NOT-REPRODUCED bounded search: %d runs (6 operations x nil/5 annotation maps x nil/5 slot sets) on the real helpers\n", tried)
 	}
 }
